@@ -197,8 +197,15 @@ def judge_batch(ctx, c):
 def judge_history(ctx, c):
     """the same spectrum object used again: at another sampling rate (same length), and after it was rescaled in place"""
     from ocean_science_utilities.wavespectra.timeseries import surface_timeseries
-    s = build(c)
     fs, L, seed = c["fs"], c["L"], c["seed"]
+    if c.get("on_fft_grid"):
+        # the spectrum is given exactly on the Fourier grid of the requested series (no resampling needed)
+        nfft_ = (L // 2) * 2
+        fk_ = np.linspace(0, 0.5 * fs, nfft_ // 2, endpoint=False)
+        if len(fk_) >= 3:
+            c = dict(c, freq=fk_, e=np.interp(fk_, np.asarray(c["freq"], float), np.asarray(c["e"], float), left=0.0, right=0.0))
+            ctx.count("C16.spectra_given_on_the_fourier_grid")
+    s = build(c)
     wit = lambda: dict(c, history=True)  # noqa
     ctx.case(("history", c["kind"], "odd" if L % 2 else "even"), nontrivial=True,
              sample={"sequence": "z at fs; z at fs2; multiply(inplace=True); z at fs", "fs": fs, "fs2": c["fs2"], "L": L})
@@ -207,6 +214,10 @@ def judge_history(ctx, c):
     if not (ok and ok2):
         return
     ctx.count("C16.histories_on_one_spectrum_object")
+    ok1b, r1b = guarded(ctx, "C16.no-exception", lambda: surface_timeseries("z", fs, L, s, seed=seed), wit, key="C16:exception")
+    if ok1b:
+        ctx.check("C16.same-seed-identical", bool(np.array_equal(np.asarray(r1b[1]), np.asarray(r1[1]))), wit,
+                  {"what": "second call on the same object, same arguments"}, key="C16:history:same-call-twice")
     x2 = np.asarray(r2[1], float)
     _, vz2, _ = oracle_variances(c, n=len(x2), fs=c["fs2"])
     ctx.close("C16.var(z)==sum(E*df)", float(np.var(x2)), vz2, atol=1e-300, rtol=1e-9, case=wit, key="C16:history:other-rate")
@@ -226,7 +237,7 @@ def run_shard(ctx, shard):
         c = make_case(rng)
         judge(ctx, c)
         if i % 3 == 0:
-            judge_history(ctx, dict(c, fs2=float(c["fs"] * rng.choice([0.5, 2.0, 1.3, 0.2]))))
+            judge_history(ctx, dict(c, fs2=float(c["fs"] * rng.choice([0.5, 2.0, 1.3, 0.2])), on_fft_grid=bool(rng.uniform() < 0.5)))
         if i % 3 == 1:
             judge_batch(ctx, dict(c, member_scales=rng.uniform(0.2, 3.0, int(rng.integers(2, 5)))))
 
